@@ -67,6 +67,14 @@ CHECKS = {
         note='The erasure table (rules/autotrait.py) states what the unsafe impls legitimately vouch for; lock-'
              'parameter leaves follow the crate\'s documented convention, stricter derivations are observation O2.',
         ref='5-C16'),
+    'C11': dict(
+        technique='path-sensitive effect/guard analysis over MIR, who-may-write scan, handle-lifecycle rule on '
+                  'Clone/Drop pairs (solver Clone facts)',
+        text='Monotone flag, effect-free AlreadyClosed path, drain-all-queues-with-waking-closure on the NewlyClosed '
+             'path, acceptance of new values only under flag == false with the caller\'s own value handed back, '
+             'flag-independent delivery paths, and counted close for every Clone handle (fetch_sub(1) == 1 on the '
+             'counter its Clone increments). Reported D3 (fixed).',
+        note='Relative to atomics doing what fetch_add/fetch_sub say.', ref='5-C11'),
 }
 
 
